@@ -76,6 +76,8 @@ def classify(c1: str, kind: str, pipeline: str, second: str | None = None) -> st
     """Known classes are narrow predicates over the canonical text AND the exact failure shape."""
     from octave_mcp import emit, parse
 
+    if kind == "reread-rejected" and any(_RESERVED_KEY_LINE.fullmatch(x) for x in c1.split("\n")):
+        return "C01:reserved-word-glued-to-number-becomes-a-key"
     if kind in ("reread-rejected", "not-idempotent"):
         if re.search(r"(?m)(?:::|[\[,]|^\s+|[→⊕⧺⇌∧∨@§])-?inf(?:$|::|[\],→⊕⧺⇌∧∨@])", c1):
             return "C01:nonfinite-number-emitted"
@@ -159,7 +161,12 @@ def _reserved_word_key_dropped(c1: str, second: str) -> bool:
         else:
             return False
     removed += list(it)
-    return bool(removed) and all(re.fullmatch(r" *(?:true|false|null|vs)(?:::.*|:)", x) for x in removed)
+    return bool(removed) and all(_RESERVED_KEY_LINE.fullmatch(x) for x in removed)
+
+
+# a line whose key is a reserved word, alone or followed by something that is not an identifier character (true::, vs:,
+# true-2.5::, vs<x>:) — never an identifier that merely starts with one (nullable::)
+_RESERVED_KEY_LINE = re.compile(r" *(?:true|false|null|vs)(?![A-Za-z0-9_])[^\s:]*(?:::.*|:)")
 
 
 def _known_or(c1: str, second: str, sig: str) -> str:
